@@ -849,6 +849,54 @@ fn vp_native_connect_refusal_body_cap() {
     println!("VP-NATIVE connect_refusal_body_cap cases={}", cases);
 }
 
+// ---------------------------------------------------------------- the assumed model of the `http` crate's HeaderMap
+/// Contract model: the Verus units reason about a HeaderMap as an append log `hm_view` (insert = drop the name, then append; append =
+/// append; remove = drop the name; entry().or_insert = append when absent; names compare case-insensitively; get_all = the name's
+/// values in log order; iteration = a reordering of the log that keeps every name's values in order and has as many entries).
+/// Here every operation sequence up to length 5 over a small alphabet is run on the real map and on that model.
+#[test]
+fn vp_native_header_map_model() {
+    use http::header::{HeaderMap, HeaderName, HeaderValue};
+    let names = ["x-a", "X-A", "host", "Accept"];
+    let values = ["1", "2"];
+    #[derive(Clone, Copy, Debug)] enum Op { Insert(usize, usize), Append(usize, usize), Remove(usize), OrInsert(usize, usize) }
+    let mut ops = Vec::new();
+    for n in 0..names.len() { for v in 0..values.len() { ops.push(Op::Insert(n, v)); ops.push(Op::Append(n, v)); ops.push(Op::OrInsert(n, v)); } ops.push(Op::Remove(n)); }
+    let depth = if std::env::var("VP_TIER").as_deref() == Ok("thorough") { 5 } else { 4 };
+    let mut cases = 0u64;
+    let mut idx = vec![0usize; depth];
+    'outer: loop {
+        for len in [depth] {
+            let mut real: HeaderMap = HeaderMap::new();
+            let mut model: Vec<(String, &str)> = Vec::new();
+            for &i in &idx[..len] {
+                match ops[i] {
+                    Op::Insert(n, v) => { real.insert(HeaderName::from_bytes(names[n].as_bytes()).unwrap(), HeaderValue::from_static(values[v])); let k = names[n].to_ascii_lowercase(); model.retain(|(m, _)| *m != k); model.push((k, values[v])); }
+                    Op::Append(n, v) => { real.append(HeaderName::from_bytes(names[n].as_bytes()).unwrap(), HeaderValue::from_static(values[v])); model.push((names[n].to_ascii_lowercase(), values[v])); }
+                    Op::Remove(n) => { real.remove(names[n]); let k = names[n].to_ascii_lowercase(); model.retain(|(m, _)| *m != k); }
+                    Op::OrInsert(n, v) => { real.entry(HeaderName::from_bytes(names[n].as_bytes()).unwrap()).or_insert(HeaderValue::from_static(values[v])); let k = names[n].to_ascii_lowercase(); if !model.iter().any(|(m, _)| *m == k) { model.push((k, values[v])); } }
+                }
+                // after every step: per-name values in log order, total count, iteration is an order-preserving regrouping
+                assert_eq!(real.len(), model.len(), "entry count after {:?}", &idx[..len]);
+                for n in names {
+                    let got: Vec<&[u8]> = real.get_all(n).iter().map(|v| v.as_bytes()).collect();
+                    let want: Vec<&[u8]> = model.iter().filter(|(m, _)| *m == n.to_ascii_lowercase()).map(|(_, v)| v.as_bytes()).collect();
+                    assert_eq!(got, want, "values of {} after {:?}", n, idx[..len].iter().map(|&i| ops[i]).collect::<Vec<_>>());
+                    assert_eq!(real.contains_key(n), !want.is_empty());
+                    let it: Vec<&[u8]> = real.iter().filter(|(k, _)| k.as_str() == n.to_ascii_lowercase()).map(|(_, v)| v.as_bytes()).collect();
+                    assert_eq!(it, want, "iteration keeps the order of the values of {}", n);
+                }
+                assert_eq!(real.iter().count(), model.len(), "iteration yields every entry once");
+                assert_eq!(real.keys_len(), { let mut ks: Vec<&String> = model.iter().map(|(m, _)| m).collect(); ks.sort(); ks.dedup(); ks.len() }, "distinct names");
+            }
+            cases += 1;
+        }
+        let mut k = depth;
+        loop { if k == 0 { break 'outer; } k -= 1; idx[k] += 1; if idx[k] < ops.len() { break; } idx[k] = 0; }
+    }
+    println!("VP-NATIVE header_map_model cases={}", cases);
+}
+
 // ---------------------------------------------------------------- builder features (C07): params, auth helpers, every library body kind
 fn pct_decode(s: &str) -> Vec<u8> {
     let b = s.as_bytes(); let mut out = Vec::new(); let mut i = 0;
